@@ -11,7 +11,8 @@ Exploration (bounded, exhaustive, nothing sampled):
   ("entry-wise independence").
 * kind ``arith``: every operator overload / convenience method derived from lincomb, multiply and
   divide, on the same register files, all operand pairs (aliased ones included), scalars of S,
-  array-like right operands, integer and fractional powers.
+  array-like operands (list, tuple, ndarray of the space dtype / another dtype, stacked ndarray,
+  range) on both sides, integer and fractional powers.
 * kind ``bcast``: power-space broadcasting ``p o b`` / ``b o p`` / ``p o= b``, also with b being
   part k of p (every k) or a different element wrapping the memory of part k.
 * mode ``Z`` of kind ``arith``: every form of element-wise division with exact zeros (both
@@ -29,6 +30,7 @@ equality on the dyadic alphabets; operands that are not the output must be byte-
 afterwards; memory in the gaps of a strided view must not be written; ``lincomb`` /
 ``multiply`` / ``divide`` must return the ``out`` object given.
 """
+import copy
 import itertools
 import math
 import operator
@@ -465,7 +467,7 @@ class Ctx(object):
 
     def check(self, fam, label, thunk, exp, mut=None, tol=None, ret_is_out=True,
               operands=(), fresh=False, sig=None, arrays=(), where='', mask=None,
-              ieee=False):
+              ieee=False, lenient=False, pyobjs=()):
         """Execute ``thunk`` (one call into odl) and compare with the model.
 
         mut is None : the call returns a NEW element whose entries must equal ``exp``.
@@ -476,6 +478,13 @@ class Ctx(object):
         try:
             ret = thunk()
         except Exception as e:      # noqa  (library exception in an admissible call)
+            if lenient and isinstance(e, TypeError):
+                # a refusal (TypeError / NotImplemented) of an operand kind whose support the
+                # documentation does not promise: counted as unspecified, not judged
+                self.skipped += 1
+                self.sigs.add('%s:%s:refused' % (fam, sig or label))
+                self.restore()
+                return None
             self.viol(fam, 'raises:' + exc_name(e), '%s raised %r' % (label, e))
             self.sigs.add('%s:%s:raise' % (fam, sig or label))
             self.restore()
@@ -484,8 +493,15 @@ class Ctx(object):
         ok = True
         if mut is None:
             if ret is None or not hasattr(ret, 'space') or ret.space != self.space:
-                self.viol(fam, 'result_not_in_space', '%s returned %r' % (label, type(ret)))
-                ok = False
+                if lenient:
+                    # not an element of this space (e.g. what __array_ufunc__ hands back for an
+                    # ndarray on the left): unspecified here, only the operands are checked
+                    self.skipped += 1
+                    self.evals -= 1
+                    sig = '%s:foreign' % (sig or label)
+                else:
+                    self.viol(fam, 'result_not_in_space', '%s returned %r' % (label, type(ret)))
+                    ok = False
             else:
                 if any(ret is e for e in E):
                     self.viol(fam, 'result_is_an_operand_object',
@@ -532,6 +548,10 @@ class Ctx(object):
                 dirty = True
         for arr, before in arrays:
             if arr.tobytes() != before:
+                self.viol(fam, 'operand_modified', '%s changed its array-like operand' % label)
+                ok = False
+        for obj, frozen in pyobjs:
+            if not _same_obj(obj, frozen):
                 self.viol(fam, 'operand_modified', '%s changed its array-like operand' % label)
                 ok = False
         if dirty:
@@ -877,30 +897,32 @@ def run_arith(cfg):
             cx.check('pow', 'r%d ** 2.0' % i, lambda: E[i] ** 2.0, R.ipow(C[i], 2, dt),
                      operands=(('x', C[i]),), sig='x**2.0')
 
-        # ---- array-like right operands (wrapped or converted by space.element)
-        small_enough = info.n <= 128
-        for i in rng3:
+        # ---- array-like operands (neither elements nor scalars) on BOTH sides of every binary
+        # operator and on the right of the in-place forms; they are wrapped or converted by
+        # space.element.  A TypeError (refusal) or a result outside the space is counted as
+        # unspecified; wherever an element of the space comes back its values are judged, and
+        # the array-like itself must be unchanged.
+        for i in (rng3 if cx.phases() == 1 else [phase % 3]):
             j = (i + 1) % 3
-            variants = [('ndarray', nest(sp, C[j], False, dt))]
-            if small_enough:
-                variants.append(('list', nest(sp, C[j], True, dt)))
-            if not isint:
-                ci = R.contents(np.int8, info.n, phase, 'V', 3)[j]
-                variants.append(('int8-ndarray', nest(sp, ci, False, np.int8)))
-            for vname, arr in variants:
-                Y = C[j] if vname != 'int8-ndarray' else ci.astype(dt)
-                leaves_ = [a for a in _iter_arrays(arr)]
-                before = [(a, a.tobytes()) for a in leaves_]
+            for vname, arr, Y in _array_likes(sp, info, C[j], phase, mode, j):
+                before = [(a, a.tobytes()) for a in _iter_arrays(arr)]
+                frozen = [] if isinstance(arr, (np.ndarray, range)) else \
+                    [(arr, copy.deepcopy(arr))]
+                zero_div = bool(np.any(Y == 0))
                 for sym, fam, f, fi, ref, adm in BIN:
-                    if sym == '/' or not adm:
+                    if not adm:
                         continue
-                    exp = ref(C[i], Y, dt)
-                    ops = (('x', C[i]), ('y', Y))
-                    cx.check(fam, 'r%d %s <%s>' % (i, sym, vname), lambda: f(E[i], arr), exp,
-                             operands=ops, arrays=before, sig='x%sarr:%s' % (sym, vname))
-                    cx.check(fam, 'r%d %s= <%s>' % (i, sym, vname), lambda: fi(E[i], arr),
-                             exp, mut=i, operands=ops, arrays=before,
-                             sig='x%s=arr:%s' % (sym, vname))
+                    ops = (('x', C[i]), ('arr', Y))
+                    kw = dict(operands=ops, arrays=before, pyobjs=frozen, lenient=True)
+                    if not (sym == '/' and zero_div):
+                        exp = ref(C[i], Y, dt)
+                        cx.check(fam, 'r%d %s <%s>' % (i, sym, vname), lambda: f(E[i], arr),
+                                 exp, sig='x%sarr:%s' % (sym, vname), **kw)
+                        cx.check(fam, 'r%d %s= <%s>' % (i, sym, vname), lambda: fi(E[i], arr),
+                                 exp, mut=i, sig='x%s=arr:%s' % (sym, vname), **kw)
+                    if not (sym == '-' and kind == 'u'):
+                        cx.check(fam, '<%s> %s r%d' % (vname, sym, i), lambda: f(arr, E[i]),
+                                 ref(Y, C[i], dt), sig='arr%sx:%s' % (sym, vname), **kw)
 
     # ---- fractional powers (tensor-like spaces only; product spaces document integer p only:
     # "This is only defined for integer ``p``"), on positive contents, tolerance 8 eps
@@ -1049,6 +1071,56 @@ def run_overlap(cfg):
                              lambda: sp.divide(E[i], E[j], out=E[2]), exp, mut=2, operands=ops,
                              sig='ovl:divide')
     return cx.result()
+
+
+def _same_obj(a, b):
+    """Structural equality of nested lists / tuples / arrays (type, dtype and values)."""
+    if isinstance(a, np.ndarray) or isinstance(b, np.ndarray):
+        return (isinstance(a, np.ndarray) and isinstance(b, np.ndarray) and
+                a.dtype == b.dtype and a.shape == b.shape and a.tobytes() == b.tobytes())
+    if isinstance(a, (list, tuple)):
+        return (type(a) is type(b) and len(a) == len(b) and
+                all(_same_obj(x, y) for x, y in zip(a, b)))
+    return type(a) is type(b) and a == b
+
+
+def _tuplify(obj):
+    return tuple(_tuplify(o) for o in obj) if isinstance(obj, list) else obj
+
+
+def _array_likes(sp, info, Yflat, phase, mode, j):
+    """[(name, array-like with the structure of the space, its entries as a flat array)]."""
+    dt, kind, n = info.dtype, info.kind, info.n
+    out = [('ndarray' if not is_ps(sp) else 'ndarrays', nest(sp, Yflat, False, dt), Yflat)]
+    if is_ps(sp):
+        try:
+            st = np.array(nest(sp, Yflat, False, dt))
+        except ValueError:
+            st = None
+        if st is not None and st.dtype != object and st.size == n:
+            out.append(('stacked-ndarray', st, Yflat))
+    # an ndarray of ANOTHER dtype (converted, i.e. copied, by space.element)
+    if mode == 'V':
+        if kind == 'u':
+            ci = R.contents(np.uint8, n, phase, 'V', 3)[j].astype(np.int8)
+        else:
+            ci = R.contents(np.int8, n, phase, 'V', 3)[j]
+        if dt != np.int8:
+            out.append(('int8-ndarray', nest(sp, ci, False, np.int8), ci.astype(dt)))
+    elif kind in 'fc':
+        if kind == 'f':
+            od = np.float32 if dt != np.float32 else np.float64
+        else:
+            od = np.complex64 if dt != np.complex64 else np.complex128
+        out.append(('%s-ndarray' % np.dtype(od).name, nest(sp, Yflat.astype(od), False, od),
+                    Yflat))
+    if n <= 128:
+        lst = nest(sp, Yflat, True, dt)
+        out.append(('list', lst, Yflat))
+        out.append(('tuple', _tuplify(nest(sp, Yflat, True, dt)), Yflat))
+        if not is_ps(sp) and len(sp.shape) == 1 and dt.itemsize > 1 and n > 1:
+            out.append(('range', range(n), np.arange(n).astype(dt)))
+    return out
 
 
 def _iter_arrays(obj):
